@@ -36,6 +36,7 @@ Definition wBufSlice b s e := OBufSlice (n_ b) s e.
 Definition wGoWrite b i x := OGoWrite (n_ b) i (Z.to_N x).
 Definition wDetach b := ODetach (n_ b).
 Definition wLens v := OLens (n_ v).
+Definition wCtorFrom k sv := OCtorFrom k (n_ sv).
 Definition sN (m e : Z) : sval := SNum (to_bits (dec m e)).
 Definition wIncludes v x (f : option iarg) := OIncludes (n_ v) x f.
 Definition wIndexOf v x (f : option iarg) := OIndexOf (n_ v) x f.
